@@ -736,6 +736,10 @@ func init() {
 		e.stringList("patRouterFields", "fields of the struct `patRouter`", c09StructFields(s, pat, "patRouter"))
 		e.c09Access(s, tree, "Tree.Add", "treeAddAccess")
 		e.c09Access(s, tree, "Tree.Search", "treeSearchAccess")
+		// round 5c: HeaderOnceResponseWriter (the forced 404 of engine.notFoundHandler)
+		const how = "rest/internal/response/headeronceresponsewriter.go"
+		e.c09DetailDef(s, how, "HeaderOnceResponseWriter.WriteHeader", "headerOnceWriteHeaderStmts")
+		e.c09Cond(s, how, "HeaderOnceResponseWriter.WriteHeader", "condHeaderOnceWrote", c09If(0), []c09Param{{"w.wroteHeader", "wrote", "flag"}})
 		// round 5c: the other router wrappers
 		const fsf = "rest/internal/fileserver/filehandler.go"
 		e.c09DetailDef(s, srv, "WithCorsHeaders", "withCorsHeadersStmts")
